@@ -261,7 +261,11 @@ def eager_contraction_generic_to_tuple(red_op, bin_op, reduced_vars, *terms):
 
 @eager.register(Contraction, AssociativeOp, AssociativeOp, frozenset, tuple)
 def eager_contraction_generic_recursive(red_op, bin_op, reduced_vars, terms):
-    if red_op is bin_op:
+    if (
+        red_op is not ops.null
+        and bin_op is not ops.null
+        and (red_op, bin_op) not in DISTRIBUTIVE_OPS
+    ):
         # Pushing reductions into single terms is only valid when red_op
         # distributes over bin_op; sum-of-sums etc. are handled by normalize,
         # which accounts for the multiplicity of terms lacking a reduced var.
@@ -498,9 +502,17 @@ def normalize_contraction_generic_tuple(red_op, bin_op, reduced_vars, terms):
         if not isinstance(v, Contraction):
             continue
 
-        # fuse operations without distributing
+        # fuse operations without distributing; a reduction may only be fused
+        # with a product it distributes over
         if (v.red_op is ops.null and bin_op is v.bin_op) or (
-            bin_op is ops.null and v.red_op in (red_op, ops.null)
+            bin_op is ops.null
+            and v.red_op in (red_op, ops.null)
+            and (
+                red_op is ops.null
+                or v.bin_op is ops.null
+                or red_op is v.bin_op
+                or (red_op, v.bin_op) in DISTRIBUTIVE_OPS
+            )
         ):
             red_op = v.red_op if red_op is ops.null else red_op
             bin_op = v.bin_op if bin_op is ops.null else bin_op
